@@ -1515,6 +1515,127 @@ func c07GenRandom(c *Ctx, count int) {
 	}
 }
 
+// ---------------------------------------------------------------------------------------------
+// pseudo-ID rooms: sender IDs are keys, the UserIDForSender callback resolves them to user IDs
+// through a table (the "users" member of the signature argument)
+
+func c07AllowedPseudo(args [][]byte) ([][]byte, []byte) {
+	verImpl, err := gm.GetRoomVersion(gm.RoomVersion(args[0]))
+	if err != nil {
+		return args, B("unknown-version")
+	}
+	var tbl struct {
+		Users map[string]string `json:"users"`
+	}
+	_ = json.Unmarshal(args[1], &tbl)
+	querier := func(roomID spec.RoomID, senderID spec.SenderID) (*spec.UserID, error) {
+		uid, ok := tbl.Users[string(senderID)]
+		if !ok {
+			return nil, fmt.Errorf("no user for sender %q", senderID)
+		}
+		return spec.NewUserID(uid, true)
+	}
+	ev, err := verImpl.NewEventFromTrustedJSON(args[2], false)
+	if err != nil {
+		return args, B("unparsed")
+	}
+	auths := []gm.PDU{}
+	for _, a := range args[3:] {
+		ae, err := verImpl.NewEventFromTrustedJSON(a, false)
+		if err != nil {
+			return args, B("unparsed")
+		}
+		auths = append(auths, ae)
+	}
+	out := func() (out []byte) {
+		defer func() {
+			if r := recover(); r != nil {
+				out = B("panic")
+			}
+		}()
+		provider, err := gm.NewAuthEvents(auths)
+		if err != nil {
+			return B("err")
+		}
+		return c07Class(gm.Allowed(ev, provider, querier))
+	}()
+	return args, out
+}
+
+// pseudo-ID rooms x power-levels event present or not yet x actions of the creator and of others
+func c07GenPseudoIDs(c *Ctx) {
+	n := 0
+	users := J{"CREATORKEY": "@creator:hs1", "ALICEKEY": "@alice:hs1", "BOBKEY": "@bob:hs2", "REMOTEKEY": "@rem:hs3"}
+	tbl, _ := json.Marshal(J{"users": users})
+	for _, ver := range []string{"org.matrix.msc4014", "10", "12"} {
+		for _, pl := range []string{"none", "present", "present-creator-listed"} {
+			for _, fed := range []interface{}{nil, false} {
+				for _, actor := range []string{"CREATORKEY", "ALICEKEY", "REMOTEKEY", "UNKNOWNKEY"} {
+					for _, what := range []string{"topic", "message", "kick", "ban", "invite", "pl", "first-join", "join", "aliases", "redact"} {
+						n++
+						r := c07NewRoom(ver, fmt.Sprintf("z%d", n))
+						ce := J{}
+						if fed != nil {
+							ce["m.federate"] = fed
+						}
+						auths := [][]byte{r.create("CREATORKEY", ce)}
+						switch pl {
+						case "present":
+							auths = append(auths, r.state("m.room.power_levels", "CREATORKEY", "", J{"users": J{"ALICEKEY": 50}}))
+						case "present-creator-listed":
+							us := J{"ALICEKEY": 50}
+							if r.format != 3 {
+								us["CREATORKEY"] = 100
+							}
+							auths = append(auths, r.state("m.room.power_levels", "CREATORKEY", "", J{"users": us}))
+						}
+						auths = append(auths, r.state("m.room.join_rules", "CREATORKEY", "", J{"join_rule": "public"}))
+						if what != "first-join" && what != "join" {
+							auths = append(auths, r.member(actor, actor, c07MemContent("join")))
+						}
+						auths = append(auths, r.member("BOBKEY", "BOBKEY", c07MemContent("join")))
+						prev := []string{r.eventID("p")}
+						var ev []byte
+						switch what {
+						case "topic":
+							ev = r.event(r.eventID("e"), "m.room.topic", actor, sp(""), J{"topic": "x"}, prev, nil)
+						case "message":
+							ev = r.event(r.eventID("e"), "m.room.message", actor, nil, J{"body": "x"}, prev, nil)
+						case "kick":
+							ev = r.event(r.eventID("e"), "m.room.member", actor, sp("BOBKEY"), J{"membership": "leave"}, prev, nil)
+						case "ban":
+							ev = r.event(r.eventID("e"), "m.room.member", actor, sp("BOBKEY"), J{"membership": "ban"}, prev, nil)
+						case "invite":
+							ev = r.event(r.eventID("e"), "m.room.member", actor, sp("DAVEKEY"), J{"membership": "invite"}, prev, nil)
+						case "pl":
+							ev = r.event(r.eventID("e"), "m.room.power_levels", actor, sp(""), J{"users": J{"ALICEKEY": 50, "BOBKEY": 10}}, prev, nil)
+						case "first-join":
+							auths = auths[:1]
+							ev = r.event(r.eventID("e"), "m.room.member", actor, sp(actor), J{"membership": "join",
+								"mxid_mapping": J{"user_room_key": actor, "user_id": users[actor]}}, []string{r.createID}, nil)
+						case "join":
+							ev = r.event(r.eventID("e"), "m.room.member", actor, sp(actor), J{"membership": "join",
+								"mxid_mapping": J{"user_room_key": actor, "user_id": users[actor]}}, prev, nil)
+						case "aliases":
+							ev = r.event(r.eventID("e"), "m.room.aliases", actor, sp(pick(c.Rng, []string{actor, "hs1"})), J{}, prev, nil)
+						case "redact":
+							ev = r.event(r.eventID("e"), "m.room.redaction", actor, nil, J{}, prev, J{"redacts": "$x:hs1"})
+						}
+						if !c07Parses(ver, append([][]byte{ev}, auths...)...) {
+							c.Count("skipped/unparsed")
+							continue
+						}
+						c.Count("pseudo-ids/" + what)
+						args := append([][]byte{B(ver), tbl, ev}, c07Shuffle(c.Rng, auths)...)
+						c.Run("c07.allowed_pseudo", args, "C07.allowed_pseudo", "C07.prop.allowed_pseudo",
+							fmt.Sprintf("pseudo-ids ver=%s pl=%s fed=%v actor=%s what=%s", ver, pl, fed, actor, what))
+					}
+				}
+			}
+		}
+	}
+}
+
 // cases for the departure histogram: args ++ [verdict]
 var c07Literal [][][]byte
 
@@ -1581,13 +1702,17 @@ func c07All(c *Ctx) {
 	c08GenExhaustive(e)
 	c08GenSpellings(e)
 	c08GenFoldedNames(e)
+	c08GenDefaultAboveSender(e)
+	c08GenNullMaps(e)
 	c08GenHistories(e, c.Scale(40, 600))
+	c07GenPseudoIDs(c)
 	c07DepartureHistogram(c)
 }
 
 func init() {
 	RegisterImpl("c07.allowed", c07Allowed)
 	RegisterImpl("c07.allowed_nilq", c07AllowedNilQ)
+	RegisterImpl("c07.allowed_pseudo", c07AllowedPseudo)
 	RegisterProp("C07", c07All)
 }
 
